@@ -18,8 +18,10 @@ fn ref_distance(a: &[u8; 20], b: &[u8; 20]) -> u8 {
 }
 
 //@ ob: C19.O1
+//@ rss: 0.7
+//@ time: 22
 //@ tier: quick
-//@ cap: 600
+//@ cap: 800
 //@ desc: distance(a,b) = 160 - clz160(a^b) against a bit-by-bit reference; symmetric; zero iff equal
 //@ bounds: all 2^320 id pairs; unwind 161 (reference loop 160 bits; id loops 20)
 //@ functions: Id::distance, Id::xor, Id::leading_zeros
@@ -39,8 +41,10 @@ fn c19_o1_distance_reference() {
 }
 
 //@ ob: C19.O1b
+//@ rss: 0.7
+//@ time: 28
 //@ tier: quick
-//@ cap: 600
+//@ cap: 800
 //@ desc: distance is consistent with byte-wise XOR order: distance(a,t) < distance(b,t) implies a^t < b^t (and xor order equal implies distance equal)
 //@ bounds: all ids a, b, t; unwind 21
 //@ functions: Id::distance, Id::xor, Id::leading_zeros, Ord for Id
@@ -64,8 +68,10 @@ fn c19_o1b_distance_xor_order() {
 }
 
 //@ ob: C19.O2
+//@ rss: 0.4
+//@ time: 5
 //@ tier: quick
-//@ cap: 300
+//@ cap: 800
 //@ desc: Id::from_bytes is total and accepts exactly length 20, copying the bytes
 //@ bounds: slices of length 0..=22 with symbolic contents; unwind 23
 //@ functions: Id::from_bytes
@@ -90,8 +96,10 @@ fn c19_o2_from_bytes_len() {
 }
 
 //@ ob: C19.O3
+//@ rss: 0.4
+//@ time: 35
 //@ tier: quick
-//@ cap: 600
+//@ cap: 800
 //@ desc: is_valid_for_ip(ip) <=> exempt(ip) or first 21 bits of id == first 21 bits of an independent bitwise CRC32C((ip & 0x030f3fff) | r<<29), r = id[19]
 //@ bounds: all 2^32 IPs x all 2^160 ids; unwind 21
 //@ functions: Id::is_valid_for_ip, id_prefix_ipv4, first_21_bits, crc::Digest (table implementation)
@@ -119,8 +127,10 @@ fn c19_o3_bep42_valid_matches_reference() {
 }
 
 //@ ob: C19.O4
+//@ rss: 0.4
+//@ time: 16
 //@ tier: quick
-//@ cap: 600
+//@ cap: 800
 //@ desc: from_ipv4_and_r(bytes, ip, r) (the body of Id::from_ipv4 after its random draw) is valid for ip for every ip/r/random bytes; last byte = r; bytes 3..19 and the low 3 bits of byte 2 untouched
 //@ bounds: all inputs; unwind 21
 //@ functions: from_ipv4_and_r, id_prefix_ipv4, Id::is_valid_for_ip
@@ -145,8 +155,10 @@ fn c19_o4_from_ipv4_and_r_valid() {
 }
 
 //@ ob: C19.O4b
+//@ rss: 0.4
+//@ time: 17
 //@ tier: quick
-//@ cap: 600
+//@ cap: 800
 //@ desc: Id::from_ipv4(ip) through the real function with getrandom stubbed by symbolic bytes: always valid for ip
 //@ bounds: all ips, all 21 random bytes; unwind 22
 //@ stubs: getrandom::fill -> symbolic bytes
@@ -177,8 +189,10 @@ fn hexval(c: u8) -> Option<u8> {
 }
 
 //@ ob: C19.O5a
+//@ rss: 6.2
+//@ time: 258
 //@ tier: quick
-//@ cap: 900
+//@ cap: 800
 //@ desc: Id::from_str is total (returns Err, never panics) on every valid UTF-8 string of at most 6 bytes (covers multi-byte characters, signs, odd lengths); none is accepted
 //@ bounds: all byte strings of length 0..=6 that are valid UTF-8; unwind 8
 //@ stubs: alloc::fmt::format -> empty string (error-message formatting only)
@@ -200,8 +214,10 @@ fn c19_o5a_from_str_total_short() {
 }
 
 //@ ob: C19.O5b
+//@ rss: 1.4
+//@ time: 59
 //@ tier: quick
-//@ cap: 900
+//@ cap: 800
 //@ desc: on 40-byte ASCII strings from_str accepts iff all characters are hex digits, and the value is the hex value -- instance: 36 fixed hex digits (both cases) with one pair at position p in {0, 7, 19} replaced by two symbolic ASCII bytes (covers '+f', '-1', ' 1', 'g0', upper/lower case at every pair position)
 //@ bounds: 3 pair positions x 2^14 byte pairs; unwind 22 (20 pairs), per-pair inner loops 4; strings with more than one non-fixed pair are C19.O5d (thorough)
 //@ stubs: alloc::fmt::format -> empty string (error-message formatting only)
